@@ -115,6 +115,10 @@ def pack (h : Str → Nat) (names : List Str) : Option (List Nat) :=
 /-- `BLOB_IS_REGISTERED_TYPE` (set read from the header) -/
 def isRegisteredType (bt : Nat) : Bool := Gen.registeredBlobTypes.contains bt
 
+/-- does the blob struct of this kind have a `gtype_name` member at all (girnode.c writes the kind
+    with a struct that starts like RegisteredTypeBlob)?  `Entry.gtypeName` is meaningful only then. -/
+def hasGTypeNameField (bt : Nat) : Bool := Gen.gtypeNameBlobTypes.contains bt
+
 /-- `g_typelib_get_dir_entry_by_gtype_name` -/
 def byGTypeName (d : Dir) (g : Str) : Found :=
   scan (fun e => isRegisteredType e.blobType && decide (e.gtypeName = some g)) d.nLocal 0 d.entries
@@ -371,11 +375,27 @@ def registerInternalWith (clears : Bool → Bool) (s : Repo) (t : TL) (lazy : Bo
 def registerInternal (s : Repo) (t : TL) (lazy : Bool) (pos : Nat) : Option Repo :=
   registerInternalWith registerClearsUnknown s t lazy pos
 
+/-- do BOTH load entry points (`g_irepository_load_typelib`, `require_internal`) take the typelib to
+    register from the lazy table when the namespace is lazily loaded (`if (is_lazy) typelib =
+    g_hash_table_lookup (priv->lazy_typelibs, namespace)`)?  Read from the CURRENT source. -/
+def transitionPromotes : Bool :=
+  ["g_irepository_load_typelib", "require_internal"].all fun f =>
+    Gen.cacheSites.any fun s =>
+      s.1 == f && s.2.1 == ["if:is_lazy"] && s.2.2.1 == "g_hash_table_lookup" && s.2.2.2 == "lazy_typelibs"
+
+/-- the typelib a load registers: the one already in the lazy table if there is one (a lazy → loaded
+    transition PROMOTES the typelib that is loaded; the one passed in / found on disk is not used) -/
+def promoted (s : Repo) (t : TL) : TL :=
+  match (if transitionPromotes then lookupNs s.lazy t.ns else none) with
+  | some t0 => t0
+  | none => t
+
 /-- `g_irepository_load_typelib (repository, typelib, flags, &error)`, and `require_internal` from
-    the point where the typelib file has been found and mapped: a namespace that is registered
-    already (lazily registered counts only when the caller allows lazy) is left alone. -/
+    the point where the namespace is known: a namespace that is registered already (lazily
+    registered counts only when the caller allows lazy) is left alone; otherwise `register_internal`
+    is called, for a lazily loaded namespace with the typelib of the lazy table. -/
 def loadOp (s : Repo) (t : TL) (lazy : Bool) (pos : Nat) : Option Repo :=
-  if isRegistered s t.ns lazy then some s else registerInternal s t lazy pos
+  if isRegistered s t.ns lazy then some s else registerInternal s (promoted s t) lazy pos
 
 inductive Op where
   | findByGType (g : Str)
@@ -429,13 +449,10 @@ structure Inv (s : Repo) : Prop where
     byErrorDomain t.lib.dir p.1 = .entry p.2.idx p.2.entry
   nodup : (s.loaded.map (·.ns)).Nodup
 
-/-- what the caller (and GHashTable) must respect for a call made in state `s`:
-    * a typelib is never UNLOADED: the only way a typelib leaves a table is the lazy → loaded
-      transition of `register_internal`, and then the typelib registered in its place must have
-      the same directory (the same file mapped again);
-    * a resize of a hash table permutes it, nothing else. -/
+/-- what GHashTable must respect for a call made in state `s`: a resize of a hash table permutes it,
+    nothing else.  (Nothing is asked of the caller: a typelib is never unloaded, and the lazy →
+    loaded transition keeps the typelib that is loaded.) -/
 def OpOk (s : Repo) : Op → Prop
-  | .load t lazy _ => lazy = false → ∀ t' ∈ s.lazy, t'.ns = t.ns → t'.lib.dir = t.lib.dir
   | .rehash e l => e.Perm s.eager ∧ l.Perm s.lazy
   | _ => True
 
